@@ -74,6 +74,19 @@ CLAIMED["C01"] = {
     "design_ref": "5 C01",
 }
 
+CLAIMED["C13"] = {
+    "technique": "Lean 4 induction over the variable table of the generated Reader.read_variables: skipped and read variables advance the byte counters identically; correspondence of subset loads against the model, the Spec and the projection of a real full load",
+    "text": "C13_skip_eq_read_advance / readVars_spec / C13_read_offsets_independent (all variable tables, types, read-flag patterns, ncache), var_stepover_eq_block and the merge lemmas are proved about the generated reader code and the merge model; C13_merge_collision_witness is the negation for colliding names (known finding). Tie: group subsets (False / list forms), random variable lists, partial component sets, x-infixed names; each subset load equals the real full load's arrays, the model's rows and read trace, and the Spec.",
+    "note": "trusted: as C01; vector merging is modelled on key lists (vectorMerges) and tied by correspondence",
+    "design_ref": "5 C13",
+}
+CLAIMED["C14"] = {
+    "technique": "Lean 4 alignment theorem for the generated PartReader.read_header over all header record sizes, type mixes and particle counts; correspondence on particle files and sink CSV files (both unit dialects)",
+    "text": "part_header_aligned (npart read from the third record, five header records of arbitrary sizes skipped by their own length markers, every d/i/b column read or skipped at the start of its own record, for every npart incl. 0), C14_columns_independent, C14_zero_particles are proved about the generated reader code. Tie: particle files with 0..7 particles per cpu, random descriptors and header sizes, sortby, variable lists; sink files missing / empty / 1 / 3 sinks in code-unit and legacy dialects; real loader vs model (rows, units, read trace) vs Spec.",
+    "note": "trusted: as C01; np.loadtxt; the sink unit-line grammar as modelled (factors m, l, t with **int, spaces as products, bracketed legacy units from pint)",
+    "design_ref": "5 C14",
+}
+
 NOT_YET = {
 }
 
